@@ -1,4 +1,5 @@
 import SigHook.Lemmas.HalfLock
+import SigHook.Lemmas.RegistryConcPlan
 import SigHook.Gen.Orderings
 /-!
 # C01 — Removing an action is quiescent: never runs again, freed outside any handler
@@ -151,3 +152,75 @@ example : ((runSchedule 16 (Sys.init demoScripts) demoSchedule).2.map (·.2)) =
      .spin, .load "lock0" 0, .free 0, .mutexUnlock false] := by decide
 
 end SigHook.HalfLock
+
+/-!
+## Registry level (L6): actions, not just snapshots
+
+The concurrent registry model embeds two half-lock machines; `Lemmas/RegistryConc*.lean` prove
+that in every reachable state (any number of threads, any scripts, every interleaving) both
+satisfy the invariant above, and that a delivery which has pinned `data` executes a suffix of the
+action list recorded for the snapshot it pinned (`Inv7a.plan`). The theorems below are the
+property at the level of *actions*: an action is released only when no live snapshot - hence no
+delivery in progress on any thread - refers to it any more, only by a mutator, never by a
+delivery.
+-/
+namespace SigHook.RegConc
+open SigHook.Registry (Disp Env)
+open SigHook.HalfLock (phaseAt)
+
+/-- **C01.registry_release_unreferenced** — when a mutator's `store` releases snapshot `old`, an
+action it drops (`tag ∈ out.dropped`) is in the remaining list of no delivery in progress on any
+thread, and after the step no live snapshot refers to it: no invocation is in progress and none
+can start from any snapshot a later delivery could pin. -/
+theorem C01_registry_release_unreferenced {env : Env} {ye : Nat} {disp : List (Int × Disp)}
+    {scripts : List (List Op)} {s s' : Sys} {t old tag : Nat} {out : StepOut}
+    (hr : Reachable env ye disp scripts s) (hs : step env ye s t = some (s', out))
+    (hev : out.ev = .hd (.free old)) (htag : tag ∈ out.dropped) :
+    (∀ (j : Nat) (thj : Thread) (sig : Int) (pv : Option Disp) (tags : List Nat),
+      s.threads[j]? = some thj → thj.pc = .dPlan sig pv tags → tag ∉ tags) ∧
+    (∀ x ∈ s'.hd.live, ∀ d, lookupN x s'.cd = some d → tag ∉ tagsOfData d) := by
+  have hI := inv6_reachable hr
+  have h7 := inv7a_reachable hr
+  cases hth : s.threads[t]? with
+  | none => unfold step at hs; simp [hth] at hs
+  | some th =>
+    have h6 := step6_of hI hth hs
+    cases h6 with
+    | runDFree old' res hd' hpc mv =>
+      simp only at htag
+      refine ⟨?_, ?_⟩
+      · intro j thj sig pv tags hj hpcj
+        exact dropped_not_planned hI h7 mv.before htag hj hpcj
+      · intro x hx d hl
+        have hx' : x ∈ s.hd.live.erase old' := by
+          have := mv.live; simp only [HalfLock.Obs.newLive] at this
+          have hx2 : x ∈ hd'.live := hx
+          rw [this] at hx2; exact hx2
+        exact dropped_not_live hI htag hx' hl
+    | _ => first | (simp at hev; done) | (simp at htag)
+
+/-- **C01.registry_delivery_never_releases** — no step of a delivery releases anything: whatever
+is dropped is dropped by a mutator (the removing thread), outside any signal handler. -/
+theorem C01_registry_delivery_never_releases {env : Env} {ye : Nat} {disp : List (Int × Disp)}
+    {scripts : List (List Op)} {s s' : Sys} {t : Nat} {th : Thread} {out : StepOut} {sig : Int}
+    (hr : Reachable env ye disp scripts s) (hth : s.threads[t]? = some th)
+    (hd : deliverySig th.pc = some sig) (hs : step env ye s t = some (s', out)) : out.dropped = [] := by
+  have hI := inv6_reachable hr
+  have h6 := step6_of hI hth hs
+  cases h6 <;> first | rfl | (simp_all [deliverySig])
+
+/-- **C01.registry_pinned_contents_fixed** — what a delivery executes is a suffix of the action
+list recorded for the snapshot it has pinned; that snapshot is live (never released while pinned,
+`C01_pinned_not_freed`) and its recorded contents are never modified. -/
+theorem C01_registry_runs_pinned {env : Env} {ye : Nat} {disp : List (Int × Disp)}
+    {scripts : List (List Op)} {s : Sys} {t : Nat} {th : Thread} {sig : Int} {pv : Option Disp} {tags : List Nat}
+    (hr : Reachable env ye disp scripts s) (hth : s.threads[t]? = some th) (hpc : th.pc = .dPlan sig pv tags) :
+    ∃ p d pre, phaseAt s.hd t = .rHold p 0 ∧ p ∈ s.hd.live ∧ lookupN p s.cd = some d ∧
+      pre ++ tags = tagsFor d sig := by
+  have hI := inv6_reachable hr
+  have := (inv7a_reachable hr).plan t th hth
+  rw [hpc] at this; simp only [PlanT] at this
+  obtain ⟨p, d, h1, h2, pre, h3⟩ := this
+  exact ⟨p, d, pre, h1, hold_live hI.emb.hd h1, h2, h3⟩
+
+end SigHook.RegConc
